@@ -484,8 +484,14 @@ RenderBad(s, ns, op, res) ==
      ELSE IF kind = "md" THEN (IF MdBad(ns, t, res) # {} THEN {"out.md"} ELSE {})
      ELSE {}
 
+\* C09: every renderer under every style returns output or an error, never panics,
+\* and an error comes with no text.  Entries: <<format, decoration, entry, status, textEmpty>>
+AllBad(res) == {res.all[i] : i \in {k \in DOMAIN res.all : res.all[k][4] = "panic" \/ (res.all[k][4] = "error" /\ res.all[k][5] # 1)}}
+
 BadResMore(s, ns, op, res) ==
-  IF op.op = "render" THEN RenderBad(s, ns, op, res) ELSE {}
+  IF op.op = "render" THEN RenderBad(s, ns, op, res)
+  ELSE IF op.op = "renderall" THEN (IF AllBad(res) # {} THEN {"out.all"} ELSE {})
+  ELSE {}
 
 \* result of the call itself (op-specific observations): the set of failing parts
 BadRes(s, ns, op, res) ==
@@ -513,5 +519,6 @@ ExplainMore(s, ns, op, f, res) ==
   ELSE IF f = "out.json" THEN JsonBad(ns, RenderTbl(s, op), res)
   ELSE IF f = "out.html" THEN HtmlBad(ns, RenderTbl(s, op), RenderHtml(s, op), res)
   ELSE IF f = "out.md" THEN MdBad(ns, RenderTbl(s, op), res)
+  ELSE IF f = "out.all" THEN AllBad(res)
   ELSE {}
 =============================================================================
